@@ -281,6 +281,8 @@ SQL_ORDER = (
     ("sel", P_A_GT_1),
     ("sel", P_C_GE_13),
     ("calc", "x", NEG_A),
+    ("calc", "c", NEG_A),  # re-creates a tag a projection may have hidden (possibly the sort key)
+    ("proj", ("a",)),
     ("chain", ("Y",)),
     ("chain", ("self",)),
     ("join", ("K",), None, False),
@@ -304,6 +306,8 @@ SQL_ORDER_SMALL = (
     ("dedup",),
     ("sel", P_A_GT_1),
     ("calc", "x", NEG_A),
+    ("calc", "c", NEG_A),
+    ("proj", ("a",)),
     ("chain", ("Y",)),
     ("join", ("K",), None, False),
     ("mat", "m1"),
